@@ -149,9 +149,11 @@ class HashTable:
         return ra
 
     def __eq__(self, other):
-        t = np.all(self._keys == other._keys)
-        t &= np.all(self._values == other._values)
-        return t
+        # as dictionaries: the same keys with the same values, however the keys are laid out in the buckets
+        keys = self._keys.ravel()
+        if keys.size != other._keys.size or not np.all(other.contains(keys)):
+            return False
+        return bool(np.all(self[keys] == other[keys]))
 
     def __add__(self, other):
         if self._safe_mode and not self._keys.equals(other._keys):
